@@ -433,3 +433,9 @@ def run(ctx, fb, cfg):
     import termkinds
 
     termkinds.check_term_kinds(ctx, lib, R + "K5.term-kinds")
+    # `==` / hash on compound terms go through the blanket CompoundEq / CompoundHash helpers and the
+    # library's compound impls (shared with C20): two compounds of different types are never equal
+    import C15
+    import C20
+
+    C20.check_library(C15._Prefixed(ctx, "C21"), lib)
